@@ -369,6 +369,48 @@ func checkC10(c *vlib.Ctx) (string, string) {
 			for _, vn := range varyNames(resps[i].Hdr["Vary"]) {
 				listed[vn] = true
 			}
+			// request properties other than headers
+			for _, a := range vlib.Attrs {
+				r2 := vlib.Req{Method: r.Method, Hdr: r.Hdr, Attr: a}
+				c.Transitions.Add(1)
+				if got := vlib.Serve(h, &inner.Calls, r2, pre); got.Sig() != sigs[i] && !listed["*"] {
+					k := c10Case{Passthrough: j.pass, Cfg: j.lit, Debug: j.debug, Preset: j.preset, R1: r, R2: r2, History: j.hist}
+					if f := vlib.Guard(func() *vlib.Failure { return c10Judge(k) }); f != nil {
+						ck.Report(k, f)
+					} else {
+						vlib.HarnessError("attribute pass and judge disagree on %+v", k)
+					}
+				}
+			}
+			// two headers at once (first value of every pair of distinct names), on pristine jobs without pre-set Vary
+			if j.preset == nil && !j.hist && !listed["*"] {
+				var firsts [][2]string
+				seenName := map[string]bool{}
+				for _, e := range requestHeaderDictionary {
+					if !seenName[e[0]] && !listed[http.CanonicalHeaderKey(e[0])] {
+						seenName[e[0]] = true
+						firsts = append(firsts, e)
+					}
+				}
+				firsts = append(firsts, [2]string{"Upgrade", "websocket"}, [2]string{"Connection", "Upgrade"}, [2]string{"Sec-Fetch-Mode", "websocket"}, [2]string{"Sec-Fetch-Site", "same-origin"})
+				for x := range firsts {
+					for y := x + 1; y < len(firsts); y++ {
+						if firsts[x][0] == firsts[y][0] {
+							continue
+						}
+						r2 := withDictionaryHeader(withDictionaryHeader(r, firsts[x]), firsts[y])
+						c.Transitions.Add(1)
+						if got := vlib.Serve(h, &inner.Calls, r2, pre); got.Sig() != sigs[i] {
+							k := c10Case{Passthrough: j.pass, Cfg: j.lit, Debug: j.debug, Preset: j.preset, R1: r, R2: r2, History: j.hist}
+							if f := vlib.Guard(func() *vlib.Failure { return c10Judge(k) }); f != nil {
+								ck.Report(k, f)
+							} else {
+								vlib.HarnessError("pair pass and judge disagree on %+v", k)
+							}
+						}
+					}
+				}
+			}
 			for _, e := range requestHeaderDictionary {
 				if listed[http.CanonicalHeaderKey(e[0])] || listed["*"] {
 					continue
